@@ -262,7 +262,9 @@ class H11(_Harness):
         res = []
         before = snapshot(root)
         any_file = os.path.join(root, sorted(files)[0])
-        for mode in (['-l'], ['-a'], ['-n'], ['-i', '50000001'], ['--bmc-id', '1'], ['--plid', '50000001'], ['--src', 'BD'], ['-a', '-x']):
+        some_eid = "%08X" % int.from_bytes(files[sorted(files)[0]][44:48], 'big')
+        for mode in (['-l'], ['-a'], ['-n'], ['-i', '50000001'], ['--bmc-id', '1'], ['--plid', '50000001'], ['--src', 'BD'], ['-a', '-x'],
+                     ['-i', some_eid, '-c'], ['-l', '-c'], ['-a', '-c', '-x'], ['--plid', some_eid, '-c'], ['-n', '-c']):
             run_cli(['-p', root] + mode + sel_options(rng))
         run_cli(['-f', any_file])
         res.append(("every non-deleting mode leaves the directory tree byte-for-byte unchanged", snapshot(root) == before, dict()))
